@@ -162,6 +162,21 @@ func runC20(c *Check) {
 		c.Unk("C20-R1", "GetNextBatch ⟂ cursor-increment", fn, "", "anchor lost: no cursor increment after a retrieval")
 		return
 	}
+	// R16 (= C13-R17): one call reads a DA height at most once. Between two retrievals the
+	// cursor has moved (or the call has ended): a retry of the same height inside the call has
+	// no bound — with the DA layer down, or the context cancelled (every read then fails at
+	// once), GetNextBatch spins on that height and block production never gets back to its
+	// stop check; the node hangs in shutdown.
+	c.Doc("C20-R16", "EO+BO: in GetNextBatch no path leads from a DA retrieval to another DA retrieval without an increment of the scan cursor in between: no unbounded re-read of one height inside a call (the retry belongs to the next call, which the caller makes under its own stop check).")
+	{
+		var after []*Node
+		for _, r := range rets {
+			after = append(after, r.Succ...)
+		}
+		c.Decide("C20-R16", "GetNextBatch ⟂ a height is read at most once per call", fn, p.InstrPos(rets[0].In), "between two retrievals the cursor is advanced",
+			"a DA height can be read again in the same call without the cursor having moved (a retry by `continue`): nothing bounds the number of reads — when every read fails at once (DA down, context cancelled at shutdown) the call never returns, the aggregation loop never reaches its stop check, and the node hangs", g,
+			g.PathAvoiding(after, nodeSet(rets), nodeSet(loopIncs)))
+	}
 	consts := enumConsts(p, daPkg, "StatusCode")
 	isCode := func(t *Term) bool {
 		return t.Op == "field" && t.Name == "Code" && strings.Contains(t.String(), "types.RetrieveWithHelpers(")
